@@ -59,6 +59,8 @@ def generate(seed, tier):
         left -= k
         if faulty and rng.random() < 0.3:
             ops.append({'op': 'fail_next_flush', 'at': rng.randrange(6)})
+        if not faulty and rng.random() < 0.15:
+            ops.append({'op': 'race_buffer_during_flush', 'pick': rng.randrange(1000)})
         x = rng.random()
         if x < 0.75:
             ops.append({'op': 'flush'})
@@ -263,6 +265,49 @@ def execute(script):
                 store.add_block_to_buffer(objs[b])
                 buffered.append(b)
                 res.bump('probe:block_buffered_twice')
+            elif kind == 'race_buffer_during_flush':
+                # a second thread (miner / network) hands over the next block WHILE a flush is writing: it is let in right
+                # after the write returns if and only if the store's lock is free at that instant, otherwise it waits
+                if wedged or had_fault or not buffered:
+                    continue
+                todo = [b for b in tree if b not in handed]
+                ready = [b for b in todo if chain.blocks[b].parent.id in handed or chain.blocks[b].parent.id == genesis_id]
+                if not ready:
+                    continue
+                nb = ready[op.get('pick', 0) % len(ready)]
+                st = {'done': False, 'nested': False}
+                orig_w = store.write_blocks_to_disk
+
+                def other_thread():
+                    if st['done']:
+                        return
+                    st['done'] = True
+                    store.add_block_to_buffer(objs[nb])
+
+                def seam(blocks):
+                    r = orig_w(blocks)
+                    if not st['done'] and not store.lock.locked():
+                        st['nested'] = True
+                        other_thread()
+                    return r
+                store.write_blocks_to_disk = seam
+                try:
+                    store.flush_blocks_to_disk()
+                except sqlite3.Error as e:
+                    res.violate(PROP, 'C08/flush-raised', 'flush raised %s: %s' % (type(e).__name__, e))
+                    break
+                finally:
+                    del store.write_blocks_to_disk
+                other_thread()
+                for b in buffered:
+                    if b not in flushed:
+                        flushed.append(b)
+                buffered = [nb]
+                handed.add(nb)
+                res.bump('flushes')
+                res.bump('races')
+                if st['nested']:
+                    res.bump('probe:other_thread_entered_during_flush')
             elif kind == 'fail_next_flush':
                 fail_at = op.get('at', 0)
             elif kind == 'flush':
@@ -422,5 +467,5 @@ def describe():
         'assumptions': ['blocks are handed to the store parents-first, as the node does',
                         'F6 (shared transaction) is a listed known finding: only the exact predicted loss is downgraded'],
         'expected_probes': ['flushes', 'read_backs', 'rebuilds', 'reopens', 'probe:tree_has_fork', 'probe:block_buffered_twice',
-                            'fault:restart_without_flush', 'fault:flush_failed_disk_full', 'probe:rebuild_with_shared_transactions'],
+                            'fault:restart_without_flush', 'fault:flush_failed_disk_full', 'probe:rebuild_with_shared_transactions', 'races'],
     }
